@@ -165,6 +165,8 @@ def explore_config(case):
     numapi.check_aliasing(res, B, [], selx[:14], case, "config", ("exp", "wedge", "exp_to_Matrix"))
     numapi.check_symbol_names(res, B, [], selx[:6], case, "config", ("exp", "wedge"))
     numapi.check_threads(res, B, [], numapi.generic_pair(selx), case, "config", ("exp",))
+    if is_dp:
+        gutil.check_product_by_position(res, B, [], selx, case, "config", ("exp", "wedge"))
     numapi.check_spellings(res, B, [], selx[:8], case, "config")
     numapi.check_algebra_arithmetic(res, B, selx, case, "config")
     # ---- one-parameter words ------------------------------------------------------------------
